@@ -53,7 +53,7 @@ func c15Decorate(t *rapid.T, s string) string {
 			b[i] -= 0x20
 		}
 	}
-	ws := []string{"", "", " ", "  ", "\t", "\n", " \r\n "}
+	ws := []string{"", "", " ", "  ", "\t", "\n", " \r\n ", strings.Repeat(" ", 300)}
 	out := rapid.SampledFrom(ws).Draw(t, "lws") + string(b)
 	np := rapid.IntRange(0, 3).Draw(t, "nparams")
 	keys := map[string]bool{}
@@ -65,7 +65,7 @@ func c15Decorate(t *rapid.T, s string) string {
 		keys[strings.ToLower(k)] = true
 		var v string
 		if rapid.Bool().Draw(t, "quoted") {
-			v = `"` + rapid.SampledFrom([]string{"utf-8", "a b", "x;y", "text/html", "é", "a\\\"b", ""}).Draw(t, "qv") + `"`
+			v = `"` + rapid.SampledFrom([]string{"utf-8", "a b", "x;y", "text/html", "é", "a\\\"b", "", strings.Repeat("long value ", 30), strings.Repeat("z", 260)}).Draw(t, "qv") + `"`
 		} else {
 			n := rapid.IntRange(1, 6).Draw(t, "tn")
 			var sb strings.Builder
